@@ -47,11 +47,11 @@ def catalogue(tier, seed):
             (None, [(b"c0", val(70000))], [(b"a", val(70000, 3)), (b"bb", val(7))]),
             (full, [], [(b"a", val(4096)), (key(255), val(4096, 2)), (b"c", b"")]),
         ]
-        for i in range(24):
+        for i in range(90):
             nb, ns = rnd.randint(0, 2), rnd.randint(1, 4)
             ks = [key(rnd.choice([1, 2, 3, 255]), bytes([97 + j])) + bytes([48 + j]) for j in range(nb + ns)]
             ks = [k[:255] for k in ks]
-            vs = [val(rnd.choice([0, 1, 7, 33, 4096]), j) for j in range(nb + ns)]
+            vs = [val(rnd.choice([0, 1, 7, 33, 300, 4096]), j) for j in range(nb + ns)]
             cat.append((rnd.choice([None, full]), list(zip(ks[:nb], vs[:nb])), list(zip(ks[nb:], vs[nb:]))))
     else:
         for i in range(3):
@@ -69,7 +69,7 @@ def build_traces(lab, si, hdr, base, puts, tier):
     # the un-crashed session itself is a trace, too
     traces.append({"tid": f"s{si}-full", "ev": s["ev"] + [s["full_close"]]})
     meta[f"s{si}-full"] = {"session": si, "kind": "full"}
-    offs = offsets(len(s["stream"]), boundaries(puts), exhaustive_below=700 if tier == "quick" else 5000)
+    offs = offsets(len(s["stream"]), boundaries(puts), exhaustive_below=700 if tier == "quick" else 2000)
     exhaustive = len(offs) == len(s["stream"]) + 1
     for p in offs:
         # first incomplete record of the session at offset p (for the "re-put the torn key" history)
@@ -85,7 +85,8 @@ def build_traces(lab, si, hdr, base, puts, tier):
             tid = f"s{si}-p{p}-{kind}"
             traces.append({"tid": tid, "ev": s["ev"] + ev})
             meta[tid] = {"session": si, "p": p, "kind": kind}
-            if kind == "anew" and "ops" in info and (tier == "thorough" or p % 7 == 0 or p in boundaries(puts)):
+            near = any(abs(p - b_) <= 2 for b_ in boundaries(puts))
+            if kind == "anew" and "ops" in info and (near or p % (7 if tier == "quick" else 5) == 0):
                 # second crash at every offset of the put that followed recovery
                 qs = list(range(0, 5 + 22 + 36 + 1))
                 pre = [e for e in ev if e["ev"] in ("crash",)] + [e for e in ev[1:3]]   # crash, open a, put
